@@ -14,7 +14,8 @@ EXPLANATION = (
     "site is classified in a frozen table into the query sources the statement allows (schedule, refresh, ≤3 follow-ups, "
     "new interface, verify); the follow-up count is bounded by try_count < 3.  Decides the schedule's shape, not rates "
     "over long horizons."
-    " The purge of a restarted ResolveHostname search compares lower-cased names on both sides.")
+    " The purge of a restarted ResolveHostname search compares lower-cased names on both sides."
+    " (e) Every retain on the rerun queue keeps the commands of other kinds.")
 UNDECIDED = ["query rates over long horizons as numbers", "interplay of refresh queries and the schedule"]
 
 # frozen classification of query sources (function -> class); a caller not in the table is an unclassified source
@@ -178,6 +179,8 @@ def clause_d(ctx, P):
 
 
 def run(ctx, P):
+    from . import r2
+    r2.purges_keep_other_commands(ctx, P, "C19e")
     clause_a(ctx, P)
     clause_b(ctx, P)
     clause_c(ctx, P)
